@@ -131,6 +131,26 @@ fn judge_pep(ctx: &Ctx, p: &str, st: &mut Stats) {
     }
 }
 
+/// PEP 440 input with a number above u32: every rendering is an error or carries the exact number
+fn judge_pep_out_of_range(ctx: &Ctx, p: &str, st: &mut Stats) {
+    let Some(mp) = rp::parse(p) else { return };
+    let big: Vec<String> = mp.numbers().iter().filter(|n| !rp::fits_u32(n)).map(|n| { let t = n.trim_start_matches('0'); if t.is_empty() { "0".to_string() } else { t.to_string() } }).collect();
+    if big.is_empty() { return; }
+    st.inc("pep_out_of_range_cases");
+    let case = json!({"kind": "pep_oor", "input": p});
+    for to in ["pep440", "semver"] {
+        st.inc("renders");
+        match render(p, "pep440", to) {
+            Ok(Res::Ok(r)) => {
+                let exact = if to == "pep440" { r == mp.normal() } else { big.iter().all(|b| r.contains(b.as_str())) };
+                if !exact { viol(ctx, "pep_number_silently_changed", &format!("{p} [pep440->{to}]"), case.clone(), format!("rendered {r:?}; the input carries {big:?}")); }
+            }
+            Ok(_) => st.inc("pep_out_of_range_rejected"),
+            Err(pn) => viol(ctx, &format!("panic@{}", pn.file()), &format!("{p} [pep440->{to}]"), case.clone(), format!("{} at {}", pn.message, pn.location)),
+        }
+    }
+}
+
 /// clause 3 for an arbitrary accepted SemVer string: its PEP 440 rendering is a fixed point (and valid)
 fn judge_semver_fixed_point(ctx: &Ctx, s: &str, st: &mut Stats) {
     st.inc("semver_fp_cases");
@@ -249,6 +269,10 @@ fn main() {
     let s2 = oor.par_iter().map(|c| { let mut st = Stats::default(); st.inc("out_of_range_cases"); judge_canon(&ctx, c, &mut st); st }).reduce(Stats::default, Stats::merge);
     let ps = pep_space(quick);
     let s3 = ps.par_iter().map(|p| { let mut st = Stats::default(); judge_pep(&ctx, p, &mut st); st }).reduce(Stats::default, Stats::merge);
+    // PEP 440 spellings of every numeric slot x numerals at and above u32 / u64 (also zero-padded)
+    let pep_oor: Vec<String> = { let mut v = vec![]; for t in ["{N}!1.0", "{N}.0", "1.{N}", "1.0.{N}", "1.0a{N}", "1.0-alpha.{N}", "1.0RC_{N}", "1.0-{N}", "1.0.post{N}", "1.0_rev{N}", "1.0r{N}", "1.0-post-{N}", "1.0.dev{N}", "1.0dev-{N}", "1.0+{N}", "1.0+a.{N}", "1.0a1-{N}.dev2", "3!1-{N}+abc"] { for n in ["4294967296", "04294967296", "18446744073709551615", "18446744073709551616", "99999999999999999999999"] { v.push(t.replace("{N}", n)); } } v };
+    let s2b = pep_oor.par_iter().map(|p| { let mut st = Stats::default(); judge_pep_out_of_range(&ctx, p, &mut st); st }).reduce(Stats::default, Stats::merge);
+    let s2 = s2.merge(s2b);
     let ts = token_space(if quick { 4 } else { 5 });
     let s4 = ts.par_iter().map(|s| { let mut st = Stats::default(); judge_semver_fixed_point(&ctx, s, &mut st); st }).reduce(Stats::default, Stats::merge);
 
@@ -279,7 +303,7 @@ fn main() {
     cov.evaluations = all.get("renders");
     cov.traces_validated = all.get("renders");
     cov.distinct_nontrivial = all.get("canon_cases") + all.get("pep_cases") + all.get("semver_fp_cases");
-    cov.rule = format!("canonical SemVer shapes: full product of core numbers x epoch x (label,number) x post x dev x build ({} versions) through semver->semver, semver->pep440, pep440->semver, pep440->pep440 against an independent formatter; {} out-of-range shapes (2^32, 2^64-1, 2^64, 23 digits in each numeric position) for the no-silent-change clause; {} PEP 440 spellings (product of epoch/release/pre/post/dev/local/prefix variants) for round-trip equality and fixed points; {} SemVer strings whose pre-release is every token sequence of length <= {} over [epoch alpha beta rc post dev pre 0 1 5 x] for the fixed-point clause. every render goes through run_render (CLI entry). non-trivial = input versions judged", cs.len(), oor.len(), ps.len(), ts.len(), if quick { 4 } else { 5 });
+    cov.rule = format!("canonical SemVer shapes: full product of core numbers x epoch x (label,number) x post x dev x build ({} versions) through semver->semver, semver->pep440, pep440->semver, pep440->pep440 against an independent formatter; {} out-of-range shapes (2^32, 2^64-1, 2^64, 23 digits in each numeric position) and 90 PEP 440 spellings of every numeric slot with numerals above u32 / u64 for the no-silent-change clause; {} PEP 440 spellings (product of epoch/release/pre/post/dev/local/prefix variants) for round-trip equality and fixed points; {} SemVer strings whose pre-release is every token sequence of length <= {} over [epoch alpha beta rc post dev pre 0 1 5 x] for the fixed-point clause. every render goes through run_render (CLI entry). non-trivial = input versions judged", cs.len(), oor.len(), ps.len(), ts.len(), if quick { 4 } else { 5 });
     cov.exhaustive = true;
     cov.samples = vec![json!(cs[cs.len() / 2].semver()), json!(oor[3].semver()), json!(ps[ps.len() / 3]), json!(ts[ts.len() - 7])];
     cov.set("clause_counts", all.to_json());
